@@ -91,6 +91,7 @@ def handle (line : String) : String :=
   | "R14" :: rest => handleR14 rest
   | "A01" :: rest => handleA01 rest
   | "A19" :: rest => handleA19 rest
+  | "F19" :: rest => handleF19 rest
   | "P01" :: rest => Lace.Driver.Enc.handleP01 rest
   | "F18" :: rest => handleF18 rest
   | "R18" :: rest => handleR18 rest
